@@ -258,6 +258,33 @@ fn condition_invert_optimize(
     None
 }
 
+thread_local! {
+    static CONSTANT_FOLD_IN_PROGRESS: std::cell::Cell<bool> = const { std::cell::Cell::new(false) };
+}
+
+/// Marks that constant_fun_result is compiling its helper program on this
+/// thread; cleared again when dropped.
+struct ConstantFoldInProgress;
+
+impl ConstantFoldInProgress {
+    fn enter() -> Option<ConstantFoldInProgress> {
+        CONSTANT_FOLD_IN_PROGRESS.with(|f| {
+            if f.get() {
+                None
+            } else {
+                f.set(true);
+                Some(ConstantFoldInProgress)
+            }
+        })
+    }
+}
+
+impl Drop for ConstantFoldInProgress {
+    fn drop(&mut self) {
+        CONSTANT_FOLD_IN_PROGRESS.with(|f| f.set(false));
+    }
+}
+
 /// If a function is called with all constant arguments, we compose the program
 /// that runs that function and run it.
 ///
@@ -271,6 +298,7 @@ fn constant_fun_result(
 ) -> Option<Rc<BodyForm>> {
     if let Some(res) = opts.dialect().stepping {
         if res >= 23 {
+
             let mut constant = true;
             let optimized_args: Vec<(bool, Rc<BodyForm>)> = call_spec
                 .args
@@ -298,6 +326,12 @@ fn constant_fun_result(
             if !constant {
                 return None;
             }
+
+            // Folding compiles a program made of all the helpers.  A helper
+            // that itself contains a constant call would be folded again in
+            // that compilation, and so on without end, so don't fold while
+            // such a compilation is under way.
+            let _folding = ConstantFoldInProgress::enter()?;
 
             let compiled_body = {
                 let to_compile = CompileForm {
